@@ -298,6 +298,79 @@ func init() {
 			os.RemoveAll(dir)
 		}
 	}
+	// Entry points converted WITHOUT bundling (no --format, or esm / cjs): the `exports` the metafile lists for an
+	// output must be the names the emitted file really exports (parsed with esbuild's own parser by hscan).
+	searches["c19-nobundle"] = func(r *gen.Rand, count int, workdir string, rep *Report) {
+		rep.Rule = "entry points of every classification (ES module with named/default exports, script with exports.x, .cjs file, file under a package.json with type commonjs / module, script with a top-level return, JSON and text files) converted without bundling under no --format / esm / cjs with Metafile:true; for every output the metafile's `exports` must equal the export names of the emitted text (esbuild's parser as AST provider), `bytes` its length. non-trivial = every case"
+		for i := 0; i < count; i++ {
+			gr := r.Fork()
+			files := map[string]string{}
+			entries := []string{}
+			add := func(name, src string) { files[name] = src; entries = append(entries, name) }
+			n := 2 + gr.Intn(4)
+			for k := 0; k < n; k++ {
+				switch gr.Intn(9) {
+				case 0:
+					add(fmt.Sprintf("esm%d.js", k), fmt.Sprintf("export const a%d = 1;\nexport function b%d() {}\nexport default 5;\n", k, k))
+				case 1:
+					add(fmt.Sprintf("named%d.mjs", k), fmt.Sprintf("const x = 1, y = 2;\nexport { x as x%d, y };\n", k))
+				case 2:
+					add(fmt.Sprintf("plain%d.js", k), "exports.x = 1;\nmodule.exports.y = 2;\n")
+				case 3:
+					add(fmt.Sprintf("legacy%d.cjs", k), "exports.x = 1;\nconsole.log(typeof module);\n")
+				case 4:
+					files[fmt.Sprintf("pkgc%d/package.json", k)] = "{\"type\": \"commonjs\"}\n"
+					add(fmt.Sprintf("pkgc%d/tool.js", k), "console.log(\"tool\");\n")
+				case 5:
+					files[fmt.Sprintf("pkgm%d/package.json", k)] = "{\"type\": \"module\"}\n"
+					add(fmt.Sprintf("pkgm%d/mod.js", k), "export let live = 1;\nconsole.log(import.meta.url);\n")
+				case 6:
+					add(fmt.Sprintf("guard%d.js", k), "if (typeof window === \"undefined\") return;\nconsole.log(1);\n")
+				case 7:
+					add(fmt.Sprintf("data%d.json", k), "{\"a\": 1, \"b-c\": [2]}\n")
+				default:
+					add(fmt.Sprintf("side%d.js", k), "console.log(\"no exports, no imports\");\n")
+				}
+			}
+			v := "nobundle,metafile" + pickS(gr, "", "", ",fmt=esm", ",fmt=cjs") + pickS(gr, "", ",ms", ",mw")
+			dir := filepath.Join(workdir, fmt.Sprintf("c19nb-%d", i%4))
+			os.RemoveAll(dir)
+			writeTree(dir, files)
+			res, pan := buildSafe(buildOptsFromName(v, dir, entries, "out"))
+			rep.Evaluations++
+			rp := graphReplay{Files: files, Entries: entries, OptName: v}
+			if pan != "" {
+				rep.violate("c19nb/panic", pan, rp)
+				continue
+			}
+			if len(res.Errors) > 0 {
+				rep.stat("build-error")
+				continue
+			}
+			rep.DistinctNontrivial++
+			rep.stat("variant:" + v)
+			for _, bad := range checkNoBundleExports(dir, res) {
+				rp.Diff = bad[1]
+				rep.violate("c19nb/"+bad[0], bad[1], rp)
+			}
+			os.RemoveAll(dir)
+		}
+	}
+	replays["c19-nobundle"] = func(c json.RawMessage, workdir string, rep *Report) {
+		var gr graphReplay
+		json.Unmarshal(c, &gr)
+		dir := filepath.Join(workdir, "c19nb-replay")
+		os.RemoveAll(dir)
+		writeTree(dir, gr.Files)
+		res, pan := buildSafe(buildOptsFromName(gr.OptName, dir, gr.Entries, "out"))
+		rep.Evaluations = 1
+		if pan != "" || len(res.Errors) > 0 {
+			return
+		}
+		for _, bad := range checkNoBundleExports(dir, res) {
+			rep.violate("replay/"+bad[0], bad[1], nil)
+		}
+	}
 	replays["c19-meta"] = func(c json.RawMessage, workdir string, rep *Report) {
 		var gr graphReplay
 		json.Unmarshal(c, &gr)
@@ -314,4 +387,55 @@ func init() {
 		}
 		rep.Evaluations = 1
 	}
+}
+
+// checkNoBundleExports compares, for every JavaScript output of a build without bundling, the metafile's `exports`
+// and `bytes` with the emitted text.
+func checkNoBundleExports(dir string, res api.BuildResult) [][2]string {
+	out := [][2]string{}
+	var m struct {
+		Outputs map[string]struct {
+			Bytes   int      `json:"bytes"`
+			Exports []string `json:"exports"`
+		} `json:"outputs"`
+	}
+	if err := json.Unmarshal([]byte(res.Metafile), &m); err != nil {
+		return [][2]string{{"metafile-not-json", err.Error()}}
+	}
+	reqs := []scanReq{}
+	paths := []string{}
+	for _, f := range res.OutputFiles {
+		rel, _ := filepath.Rel(dir, f.Path)
+		rel = filepath.ToSlash(rel)
+		o, ok := m.Outputs[rel]
+		if !ok {
+			out = append(out, [2]string{"emitted-not-listed", fmt.Sprintf("emitted file %q is missing from metafile outputs", rel)})
+			continue
+		}
+		if o.Bytes != len(f.Contents) {
+			out = append(out, [2]string{"bytes-mismatch", fmt.Sprintf("output %q: metafile bytes=%d, file has %d", rel, o.Bytes, len(f.Contents))})
+		}
+		if strings.HasSuffix(rel, ".js") {
+			reqs = append(reqs, scanReq{ID: len(paths), Code: string(f.Contents), Target: "esnext"})
+			paths = append(paths, rel)
+		}
+	}
+	resps, err := runScan(reqs)
+	if err != nil {
+		return append(out, [2]string{"scan-error", err.Error()})
+	}
+	for i, rel := range paths {
+		rs, ok := resps[i]
+		if !ok || rs.Error != "" || rs.ExportStar {
+			continue
+		}
+		listed := append([]string{}, m.Outputs[rel].Exports...)
+		sort.Strings(listed)
+		real := append([]string{}, rs.Exports...)
+		sort.Strings(real)
+		if strings.Join(listed, ",") != strings.Join(real, ",") {
+			out = append(out, [2]string{"exports-differ", fmt.Sprintf("output %q: metafile exports %v, the emitted code exports %v", rel, listed, real)})
+		}
+	}
+	return out
 }
